@@ -199,6 +199,14 @@ fn c02(tier: Tier) -> Vec<SeqCfg> {
     a.push(get(K2));
     // a pending delayed flush rewrites item metadata: tokens must survive it
     a.push(flush(Some(3)));
+    // the quiet forms report a failed guard like the loud ones (only success is silent)
+    a.push(quiet(store(StoreKind::Set, K1, b"q", 2, 0, Stale1)));
+    a.push(quiet(store(StoreKind::Replace, K1, b"q", 3, 0, Stale1)));
+    a.push(quiet(store(StoreKind::Replace, K1, b"q", 3, 0, Current)));
+    a.push(quiet(store(StoreKind::Add, K1, b"q", 4, 0, Zero)));
+    a.push(quiet(append(K1, b"+", Stale1)));
+    a.push(quiet(incr(K1, 1, 10, 0, Stale1)));
+    a.push(quiet(delete(K1, Stale1)));
     let d = if tier == Tier::Quick { 7 } else { 10 };
     let mut v = vec![base("C02/cas", "C02", a, d, tier)];
     // CAS-carrying stores that also carry a TTL, on a server whose clock is far from 0
@@ -657,6 +665,11 @@ fn c19(tier: Tier) -> Vec<SeqCfg> {
         getk(K2),
         // an oversized store (item limit 1024): refused and skipped, loud or quiet
         set(K2, &vec![b'x'; 1100], 9, 0),
+        // ... and so is every other command that carries a value, on a key that exists
+        add(K2, &vec![b'y'; 1100], 9, 0),
+        replace(K1, &vec![b'z'; 1100], 9, 0),
+        append(K1, &vec![b'+'; 1100], Zero),
+        prepend(K1, &vec![b'-'; 1100], Zero),
         flush(None),
         flush(Some(2)),
         tick(1),
